@@ -26,3 +26,41 @@ pub mod msbins {
         1 << (crate::util::constants::LOG_BYTES_IN_ADDRESS as usize)
     }
 }
+
+/// C38 — heap-size trigger policies (`util::heap::gc_trigger`).
+pub mod membal {
+    pub use crate::util::heap::gc_trigger::verif_hooks::*;
+    pub use crate::util::heap::gc_trigger::{FixedHeapSizeTrigger, MemBalancerTrigger};
+    use crate::util::heap::GCTriggerPolicy;
+    use crate::vm::VMBinding;
+    use crate::MMTK;
+
+    /// The events of `GCTriggerPolicy`, forwarded to the real implementation.
+    pub fn on_pending_allocation<VM: VMBinding>(t: &dyn GCTriggerPolicy<VM>, pages: usize) {
+        t.on_pending_allocation(pages)
+    }
+    /// `on_gc_start`, `on_gc_release`, `on_gc_end` (`which` = 0, 1, 2) with a real MMTk instance.
+    pub fn on_gc_event<VM: VMBinding>(t: &dyn GCTriggerPolicy<VM>, mmtk: &'static MMTK<VM>, which: u8) {
+        match which {
+            0 => t.on_gc_start(mmtk),
+            1 => t.on_gc_release(mmtk),
+            _ => t.on_gc_end(mmtk),
+        }
+    }
+    /// `(get_current_heap_size_in_pages, get_max_heap_size_in_pages, can_heap_size_grow)`.
+    pub fn observe<VM: VMBinding>(t: &dyn GCTriggerPolicy<VM>) -> (usize, usize, bool) {
+        (
+            t.get_current_heap_size_in_pages(),
+            t.get_max_heap_size_in_pages(),
+            t.can_heap_size_grow(),
+        )
+    }
+    /// What `on_gc_end` of a non-generational plan passes to `compute_new_heap_limit`:
+    /// `(plan.get_reserved_pages(), plan.get_collection_reserved_pages())`.
+    pub fn plan_pages<VM: VMBinding>(mmtk: &'static MMTK<VM>) -> (usize, usize) {
+        (
+            mmtk.get_plan().get_reserved_pages(),
+            mmtk.get_plan().get_collection_reserved_pages(),
+        )
+    }
+}
